@@ -445,8 +445,9 @@ func genConsts(out string, root, t1, pfbp, names *pkgInfo) {
 	lf.printf("\n/-! package type1/names -/\n")
 	lf.printf("def names_maxNameLength : Option Int := %s\n", get(nc, "maxNameLength"))
 	lf.printf("\n/-! package pfb: comparisons of the header bytes -/\n")
-	// anywhere in the package (the header may be decoded in a helper), as a sorted set
-	lf.printf("def pfb_headerTests : List String := %s\n", leanStrList(dedup(pfbp.intLiteralsComparedWith("", "buf[", pfbp.consts()))))
+	// comparisons of the first two header bytes with constants, anywhere in the package (the header may be
+	// decoded in a helper and the array may have any name), as a sorted set
+	lf.printf("def pfb_headerTests : List String := %s\n", leanStrList(dedup(append(pfbp.intLiteralsComparedWith("", "[0]", pfbp.consts()), pfbp.intLiteralsComparedWith("", "[1]", pfbp.consts())...))))
 	lf.write(out)
 }
 
